@@ -68,7 +68,7 @@ func treesEqual(a, b interface{}) bool {
 }
 
 func checkC07(c *hx.Ctx) {
-	c.Rule("value trees: exhaustive over all ordered pairs and a third of triples of 30 tricky keys (UTF-16 vs code-point order, controls, escapes), all scalars (30 strings, 30 boundary numbers, literals) in arrays and objects, nested to depth 2, plus random deeper trees; each tree in 6 re-serializations (member order, whitespace, \\u escapes both hex cases, surrogate pairs, \\/, number spellings) through MarshalCanonical([]byte) and, for the value path, MarshalCanonical(value); oracle: output == independent RFC 8785 serialization of the tree (Go reference; Python reference cross-checks every accepted document and every number), fixed point, parses back to the same value; doubles by random bit pattern; rejection classes (duplicate names incl. escaped spelling, truncation at every byte, invalid escapes, lone surrogates in all shapes, raw control characters, trailing content) must return an error; executed in crash-isolated workers; non-trivial = tree with >=2 members or a non-integer number; distinct = distinct input byte strings")
+	c.Rule("value trees: exhaustive over all ordered pairs and a third of triples of 30 tricky keys (UTF-16 vs code-point order, controls, escapes), all scalars (30 strings, 30 boundary numbers, literals) in arrays and objects, nested to depth 2, plus random deeper trees; each tree in 6 re-serializations (member order, whitespace, \\u escapes both hex cases, surrogate pairs, \\/, number spellings) through MarshalCanonical([]byte) and, for the value path, MarshalCanonical(value); oracle: output == independent RFC 8785 serialization of the tree (Go reference; Python reference cross-checks every accepted document and every number), fixed point, parses back to the same value; doubles by random bit pattern; rejection classes (duplicate names incl. escaped spelling, truncation at every byte, invalid escapes, lone surrogates in all shapes, raw control characters, trailing content after top-level objects and after top-level arrays) must return an error; executed in crash-isolated workers; non-trivial = tree with >=2 members or a non-integer number; distinct = distinct input byte strings")
 	c.Assume("references: harness/ref/jcs.go (Go, strconv shortest digits) and pyref/jcs_ref.py (Python repr digits); invalid UTF-8 and lenient number spellings are out of the statement's scope")
 	pool := hx.NewPool(c, "jcs", 16, 4*1024*1024, 30*time.Second)
 	defer pool.Close()
@@ -434,6 +434,19 @@ func checkC07(c *hx.Ctx) {
 		for _, t := range []string{"x", "{}", ",", "]", "}", "0", "\"\"", "[]", " null"} {
 			reject("trailing-content", s+t)
 			reject("trailing-content", s+" \n"+t)
+			// the same document as the only element of a top-level array (arrays and objects end on different paths)
+			reject("trailing-content-after-array", "["+s+"]"+t)
+			reject("trailing-content-after-array", "["+s+"] \t"+t)
+		}
+	}
+	for _, base := range []string{"[]", "[1,2]", `["a",{"b":1}]`, "[[]]", "[null]", "{}", `{"a":[1]}`} {
+		for _, t := range []string{"x", "{}", ",", "]", "}", "0", "\"\"", "[]", " null", "\n]", ":", "true"} {
+			cl := "trailing-content-after-array"
+			if base[0] == '{' {
+				cl = "trailing-content"
+			}
+			reject(cl, base+t)
+			reject(cl, base+" "+t)
 		}
 	}
 	for _, e := range []string{`\x41`, `\a`, `\u12`, `\u12G4`, `\uZZZZ`, `\U0041`, `\0`, `\'`, `\u`, `\u+123`, `\u-123`, `\u 123`, `\v`, `\e`} {
@@ -502,7 +515,7 @@ func checkC07(c *hx.Ctx) {
 		c.Set("python_"+m[0], lines[len(lines)-1])
 	}
 	c.Set("worker_crashes", pool.Crashes)
-	for _, cl := range []string{"duplicate-name", "duplicate-name-escaped", "truncation", "trailing-content", "invalid-escape", "lone-surrogate-high",
+	for _, cl := range []string{"duplicate-name", "duplicate-name-escaped", "truncation", "trailing-content", "trailing-content-after-array", "invalid-escape", "lone-surrogate-high",
 		"lone-surrogate-low", "lone-surrogate-low-first", "raw-control-character", "unterminated"} {
 		c.Floor("rejected:"+cl, 50)
 	}
